@@ -56,6 +56,9 @@ func (l *Log) add(e Event) {
 	l.mu.Unlock()
 }
 
+// Add appends an event observed by a wrapper around a real handler.
+func (l *Log) Add(e Event) { l.add(e) }
+
 func (l *Log) Events() []Event {
 	l.mu.Lock()
 	defer l.mu.Unlock()
